@@ -99,7 +99,7 @@ class HistGen:
     def set_opts(self, who, **opts):
         self.ops.append(dict({"op": "opts", "who": who}, **opts))
 
-    def round_explicit(self, committer, n_adds=0, remove_names=(), path_required=True, tree_ext=True, encrypt=False, observe="all"):
+    def round_explicit(self, committer, n_adds=0, remove_names=(), path_required=True, tree_ext=True, encrypt=False, observe="all", new_id=False):
         """One epoch change with everything chosen by the caller: the committer, the members removed
         by value and the number of outsiders added by value, in one commit."""
         self.set_opts(committer, path_required=path_required, tree_ext=tree_ext, single_welcome=True, encrypt_controls=encrypt)
@@ -114,7 +114,7 @@ class HistGen:
             kps.append(kp)
             adds.append(j)
         cid = self.fresh("c")
-        self.ops.append({"op": "commit", "who": committer, "id": cid, "add": kps, "remove_names": list(remove_names)})
+        self.ops.append(dict({"op": "commit", "who": committer, "id": cid, "add": kps, "remove_names": list(remove_names)}, **({"new_id": True} if new_id else {})))
         for m in self.in_group:
             if m != committer:
                 self.ops.append({"op": "deliver", "to": m, "msg": cid})
@@ -290,6 +290,40 @@ def block_join_history(rng, i, name, quick=True, suite=1, providers=None):
     g.round_explicit(g.in_group[-1], n_adds=0, remove_names=[])      # the member on the far right
     marks.append((len(g.ops) - 1, g.epoch))
     g.round_explicit(order[-1] if order[-1] in g.in_group else g.in_group[0], n_adds=0, remove_names=[])
+    marks.append((len(g.ops) - 1, g.epoch))
+    return g, marks
+
+
+def double_update_history(rng, i, name, quick=True, suite=1, providers=None):
+    """Directed history: a member sends TWO Update proposals in one epoch; the committer has (i % 3 == 0) only
+    the first, (== 1) only the second, (== 2) both in its cache, and commits by reference.  The updating member
+    must follow the commit with the leaf key of whichever Update was committed, then everybody commits once.
+    Returns (HistGen, marks) like block_join_history."""
+    n = rng.choice([3, 4, 5, 6])
+    g = HistGen(rng, n_pool=n + 1, name=name, suite=suite, providers=providers)
+    g.start()
+    marks = []
+    g.round(app=False, n_props=0, by_value_adds=n - 1, by_value_removes=0, path_required=True, echo=False)
+    marks.append((len(g.ops) - 1, g.epoch))
+    order = list(g.in_group)
+    for rep in range(2):
+        u = rng.choice(order)
+        c = rng.choice([m for m in order if m != u])
+        p1, p2 = g.fresh("p"), g.fresh("p")
+        v = (i + rep) % 3
+        g.ops.append({"op": "propose", "who": u, "kind": "update", "id": p1})
+        for m in g.in_group:
+            if m != u and (v != 1 or m != c):
+                g.ops.append({"op": "deliver", "to": m, "msg": p1})
+        g.ops.append({"op": "propose", "who": u, "kind": "update", "id": p2})
+        for m in g.in_group:
+            if m != u and (v != 0 or m != c):
+                g.ops.append({"op": "deliver", "to": m, "msg": p2})
+        g.round_explicit(c, n_adds=0, remove_names=[], path_required=rng.chance(1, 2))
+        marks.append((len(g.ops) - 1, g.epoch))
+        g.round_explicit(u, n_adds=0, remove_names=[])
+        marks.append((len(g.ops) - 1, g.epoch))
+    g.round_explicit(rng.choice(order), n_adds=0, remove_names=[])
     marks.append((len(g.ops) - 1, g.epoch))
     return g, marks
 
